@@ -45,12 +45,21 @@ class EntryPoint(Harness):
                 world.peer_send = peer
             exc = None
             try:
+                inv = None
                 if self.entry == "connect":
-                    vworld.run(loop, M.pkg.connect("10.0.0.1", 8899, self.family, 0, T, R))
+                    inv = vworld.run(loop, M.pkg.connect("10.0.0.1", 8899, self.family, 0, T, R))
                 elif self.entry == "discover":
-                    vworld.run(loop, M.pkg.discover("10.0.0.1", 8899, T, R))
+                    inv = vworld.run(loop, M.pkg.discover("10.0.0.1", 8899, T, R))
                 else:
                     vworld.run(loop, M.pkg.search_inverters())
+                if inv is not None:
+                    # the object handed to the caller must carry the configured timeout/retries as well: one more
+                    # (unanswered) request on it
+                    world.peer_send = lambda sock, data, n: 0
+                    try:
+                        vworld.run(loop, inv.read_runtime_data())
+                    except M.exceptions.InverterError:
+                        pass
             except (vworld.Hang, vworld.LiveLock) as e:
                 exc = e
             except BaseException as e:  # noqa: BLE001
